@@ -74,3 +74,27 @@ Definition cert_w2 (e : Z) (w : D) (cells : list (D * D * D * D)) : bool :=
       dle (dabs (dsub (dmul w (dadd (dmul d1 n2) (dmul d2 n1))) (dmul n1 n2))) (dmul (dpow2 e) (dmul n1 n2))
   | _ => false
   end.
+
+(* generalised-inverse form of the covariance identity (also valid for rank-deficient normal matrices, e.g. double-ended
+   systems with splices):  (n-p) * N * Cov * N = SSR * N, entry-wise to 2^e relative to the absolute sums, plus the
+   round-off floor 2^efloor * Y2 * |N_jk| *)
+Definition cov_ok_g (e efloor : Z) (rows : list drow) (p : param -> D) (cols : list param) (cov : param -> param -> D) : bool :=
+  let dof := (Z.of_nat (length rows) - Z.of_nat (length cols), 0) : D in
+  let ssr := dSSR rows p in
+  let y2 := dY2 rows p in
+  let Nm := map (fun a => map (fun b => dN rows a b) cols) cols in
+  let Cm := map (fun a => map (fun b => cov a b) cols) cols in
+  let mulm := fun (A B : list (list D)) (ab : D -> D) =>
+     map (fun ra => map (fun j => dsum (map (fun ab' => ab (dmul (fst ab') (nth j (snd ab') dzero))) (combine ra B))) (seq 0 (length cols))) A in
+  let NC := mulm Nm Cm (fun v => v) in
+  let NCN := mulm NC Nm (fun v => v) in
+  let aNC := mulm (map (map dabs) Nm) (map (map dabs) Cm) (fun v => v) in
+  let aNCN := mulm aNC (map (map dabs) Nm) (fun v => v) in
+  (0 <? fst dof) &&
+  forallb (fun rr =>
+    forallb (fun vv =>
+      let '(v, (m, n)) := vv in
+      dle (dabs (dsub (dmul dof v) (dmul ssr n)))
+          (dadd (dmul (dpow2 e) (dadd (dmul dof m) (dmul ssr (dabs n)))) (dmul (dpow2 efloor) (dmul y2 (dabs n)))))
+      (combine (fst rr) (combine (fst (snd rr)) (snd (snd rr)))))
+    (combine NCN (combine aNCN Nm)).
